@@ -88,6 +88,9 @@ type PolicySpec struct {
 	// ReplyP: probability that the reply of a storage Read is delivered late (the
 	// data is read at one instant, the caller gets it 1 s .. 1000 s later).
 	ReplyP float64 `json:"replyp,omitempty"`
+	// WriteLatUs: simulated duration of every durable write (the engine's clock has
+	// moved on when the call returns); 0 keeps consecutive engine steps at one instant.
+	WriteLatUs int64 `json:"writeLatUs,omitempty"`
 }
 
 // CrashSpec is one process death.
